@@ -320,7 +320,7 @@ func runFmt(a Args, which string) tr.Summary {
 		for i, v := range g.Vals {
 			for _, mode := range []string{"simple", "ref"} {
 				id++
-				if id%40 == 1 {
+				if id%40 == 1 || g.Name == "ifacezoo" {
 					dirtyPools()
 				}
 				Watch(id, tr.Rec{"shape": g.Name}, fmtCase{g.Name, v.Class, mode, i})
